@@ -203,11 +203,16 @@ def _elements_tiny(S, env, thorough):
     return els
 
 
-def fe_case(S, fam, which, v):
-    """(expected, observed) for final_exponentiate / exp_by_p on model element v"""
+def fe_case(S, fam, which, v, fq_coeffs=False):
+    """(expected, observed) for final_exponentiate / exp_by_p on model element v; fq_coeffs:
+    the element carries same-family FQ objects instead of ints (a constructor form the classes keep)"""
     Pm = S.pair(fam)
     F = S.F12
-    x = S.el12(fam, v)
+    if fq_coeffs:
+        FQc = S.curve(fam).FQ
+        x = S.curve(fam).FQ12([FQc(c) for c in v])
+    else:
+        x = S.el12(fam, v)
     if which == "final_exponentiate":
         exp = F.pow(tuple(v), (S.p**12 - 1) // S.r)
         got = _co(S, PL.call(Pm.final_exponentiate, x))
@@ -232,20 +237,22 @@ def task_fe(a, env):
     els = els[a["lo"]::a["step"]]
     if getattr(S.pair(fam), "exp_by_p", None) is None and "exp_by_p" not in r.skipped:
         r.skipped.append("exp_by_p(%s)" % fam)
-    for v in els:
+    for vi, v in enumerate(els):
         if r.full():
             break
         for which in ("final_exponentiate", "exp_by_p"):
-            exp, got = fe_case(S, fam, which, v)
-            if exp is None:
-                continue
-            r.ev += 1
-            r.dk.add((which, tuple(v)))
-            if exp != got:
-                nz = sum(1 for c in v if c)
-                r.viol("C12:%s:%s:%s:%s" % (a["cfg"], fam, which, "sparse" if nz <= 2 else "dense"),
-                       ME + ":replay_fe", {"cfg": a["cfg"], "fam": fam, "which": which,
-                                           "v": [hex(c) for c in v]}, exp, got)
+            for fqc in ((False, True) if (vi % 4 == 1 or len(els) <= 8) else (False,)):
+                exp, got = fe_case(S, fam, which, v, fqc)
+                if exp is None:
+                    continue
+                r.ev += 1
+                r.dk.add((which, tuple(v), fqc))
+                if exp != got:
+                    nz = sum(1 for c in v if c)
+                    r.viol("C12:%s:%s:%s:%s%s" % (a["cfg"], fam, which, "sparse" if nz <= 2 else "dense",
+                                                  ":fq-coefficients" if fqc else ""),
+                           ME + ":replay_fe", {"cfg": a["cfg"], "fam": fam, "which": which, "fqc": fqc,
+                                               "v": [hex(c) for c in v]}, exp, got)
     if a["lo"] == 0:
         r.sample({"cfg": a["cfg"], "module": fam, "element": [str(c)[:20] for c in els[min(3, len(els) - 1)]]})
     return r
@@ -253,7 +260,7 @@ def task_fe(a, env):
 
 def replay_fe(a):
     S = PL.get(a["cfg"])
-    exp, got = fe_case(S, a["fam"], a["which"], [int(c, 16) for c in a["v"]])
+    exp, got = fe_case(S, a["fam"], a["which"], [int(c, 16) for c in a["v"]], a.get("fqc", False))
     return None if exp == got else {"expected": exp, "observed": got}
 
 
